@@ -705,7 +705,13 @@ def sorter_split(facts, res):
     if not okp:
         res.violation(R3, tbf.rel(facts.path_of(calls["setFirstParticle"][0])), fn["qname"], "split-particles", calls["setFirstParticle"][0]["l"][1],
                       "a group's first particle is `%s` / `%s`, not 0 for the first group and (previous first + previous count) after: particle ranges overlap or leave a gap" % (fp[1] if len(fp) > 1 else "?", fp[0]))
-    # ---- C07.5: sort key = cut key
+    sort_key(facts, res)
+
+
+def sort_key(facts, res):
+    """C07.5: sort key = cut key (independent of how the sorted leaves are split into groups)"""
+    R3, R5 = "C07.3.block-bound", "C07.5.sorted-leaves"
+    cls = "TbfParticleSorter"
     cs = [c for c in ctor_of(facts, cls, 2)]
     if len(cs) != 1:
         raise AnalysisBroken("%s: constructor not found" % cls)
